@@ -123,7 +123,20 @@ def run(ctx):
             "the finalisation hash must absorb input, tag byte and unblinded point (all three, in this order); found %s" % parts_s, at,
             sample=parts_s)
     sl = find(out, lambda t: t.op == "slice") if out is not None else []
-    oks = any(s.args[0].op == "owf" and s.args[1].op == "int" and s.args[1].args[0] == 0 and s.args[2].op == "int" and s.args[2].args[0] == 32 for s in sl)
+    def is32(t):
+        """the bound is 32: literally, or a length that every path reaching the copy has tested to be 32"""
+        if t.op == "int":
+            return t.args[0] == 32
+        from .. import lin
+        cps = [e for e in Q.calls(eng, "copy_from_slice") if Q.path_of(e["argv"][0]) == "out"]
+        if len(cps) != 1:
+            return False
+        L = lin.Ctx()
+        for f in Q.closure(eng, eng.facts_at(cps[0]["frame"], cps[0]["block"])):
+            L.add_fact(f)
+        d = L.lin(t).add(lin.Lin(32), -1)
+        return lin.entails(L, d) and lin.entails(L, d.scale(-1))
+    oks = any(s.args[0].op == "owf" and s.args[1].op == "int" and s.args[1].args[0] == 0 and is32(s.args[2]) for s in sl)
     ctx.add("C12.R3", root + "#first-32-bytes", oks, "the output must be the first 32 bytes of the digest; found %s" % S(out, 4), at)
     ctx.floor("C12.R3", 2)
     # ---- R4 = C10.R4: PRF values come from the covering node over the bits after its prefix, for eval and for the
